@@ -1,4 +1,6 @@
 import BU.Properties.C20
+import BU.Properties.C20_Gen
+import BU.Properties.C20_GenCurve
 #print axioms C20.ripemd_tables
 #print axioms C20.curve_constants
 #print axioms C20.compress_eq_spec
@@ -11,3 +13,12 @@ import BU.Properties.C20
 #print axioms C20.sign_ok_verifies
 #print axioms C20.sign_never_fails
 #print axioms C20.sign_never_fails_unconditional
+#print axioms C20Gen.gen_rol
+#print axioms C20Gen.gen_fi
+#print axioms C20Gen.gen_fi_rejects
+#print axioms C20Gen.gen_point_add
+#print axioms C20Gen.gen_point_mul
+#print axioms C20Gen.gen_lift_x
+#print axioms C20Gen.gen_has_even_y
+#print axioms C20GenCurve.gen_mulG_add
+#print axioms C20GenCurve.gen_order
